@@ -655,7 +655,7 @@ func genExprWords(r *vh.Rand) []string {
 
 func runCalc(o *vh.Out, c tplm.Compiled, gsx string, text string, wellFormed bool, ws []string) {
 	ts, fileEnd := tplm.Scan(text)
-	tf, _ := tplm.TokField(ts)
+	tf := tplm.TokField(ts, text).Field
 	caseLine := strings.Join([]string{"tplc", gsx, tf, strconv.Itoa(fileEnd), vh.HexS(text)}, "\t")
 	for _, t := range ts {
 		if t.Tok == token.FLOAT {
